@@ -724,6 +724,15 @@ func elemField(v ssa.Value, cmp *ssa.Function) (int, string, bool) {
 	if ld, isLd := base.(*ssa.UnOp); isLd && ld.Op == token.MUL {
 		base = ld.X
 	}
+	// a comparison helper taking the two elements by value: its parameters
+	// play the roles of element i and element j
+	if prm, isP := base.(*ssa.Parameter); isP && prm.Parent() == cmp {
+		for k, q := range cmp.Params {
+			if q == prm {
+				return k, f, true
+			}
+		}
+	}
 	ia, ok := base.(*ssa.IndexAddr)
 	if !ok {
 		return 0, "", false
@@ -742,6 +751,28 @@ func elemField(v ssa.Value, cmp *ssa.Function) (int, string, bool) {
 // whose order follows map iteration). Decided by evaluating the comparator's
 // branches for every scenario "all name fields equal except F".
 func checkComparatorTotal(p *Prog, r *Report, cmp *ssa.Function) {
+	// the closure may only delegate to a named helper less(a, b) applied to
+	// elements i and j, in that order: analyse the helper then
+	{
+		var rets []*ssa.Return
+		for _, b := range cmp.Blocks {
+			if ret, ok := b.Instrs[len(b.Instrs)-1].(*ssa.Return); ok {
+				rets = append(rets, ret)
+			}
+		}
+		if len(rets) == 1 && len(rets[0].Results) == 1 {
+			if c, ok := rets[0].Results[0].(*ssa.Call); ok {
+				if g := c.Common().StaticCallee(); g != nil && p.inTarget(g) && g.Blocks != nil && len(c.Common().Args) == 2 && len(cmp.Params) == 2 {
+					k0, _, ok0 := elemOfSorted(c.Common().Args[0], cmp)
+					k1, _, ok1 := elemOfSorted(c.Common().Args[1], cmp)
+					if ok0 && ok1 && k0 == 0 && k1 == 1 {
+						r.fn(funcName(g))
+						cmp = g
+					}
+				}
+			}
+		}
+	}
 	fields := []string{"FromType", "FromName", "ToType", "ToName"}
 	eval := func(diff string, sign int) (string, string) {
 		// sign: order of element i relative to element j on field diff
@@ -851,4 +882,23 @@ func checkComparatorTotal(p *Prog, r *Report, cmp *ssa.Function) {
 	}
 	eq, _ := eval("", 0)
 	r.decide(eq == "false", "C16.total-order", "Rels:comparator:equal", p.pos(cmp.Pos()), "irreflexive on equal names", "the comparator is not irreflexive (less on equal elements = "+eq+")")
+}
+
+// elemOfSorted: v is the element <param k> of the sorted slice, loaded whole
+// (rels[i] passed by value).
+func elemOfSorted(v ssa.Value, cmp *ssa.Function) (int, string, bool) {
+	ld, ok := v.(*ssa.UnOp)
+	if !ok || ld.Op != token.MUL {
+		return 0, "", false
+	}
+	ia, ok := ld.X.(*ssa.IndexAddr)
+	if !ok {
+		return 0, "", false
+	}
+	for k, prm := range cmp.Params {
+		if ia.Index == ssa.Value(prm) {
+			return k, "", true
+		}
+	}
+	return 0, "", false
 }
